@@ -171,6 +171,10 @@ Inductive wobj :=
 | WFloat (bits : Z)
 | WStr (vocab : bool) (size : Z) (bs : list Z)   (* STRING (size = length) or VOCAB (size = index) token *)
 | WOpen (ot : otype) (kids : list wobj)      (* OPEN <opentype> kids CLOSE *)
+| WRefOpen (k : nat) (partial : obj)         (* OPEN reference n CLOSE, n naming the k-th ENCLOSING list / dict / set, which
+                                                is still open: the receiver's table holds the real, partially filled
+                                                container (partial = its members so far) and checkObject sees THAT; what
+                                                is stored is the container itself, i.e. a cycle (OPending k) *)
 | WRef (o : obj).                            (* OPEN reference n CLOSE, n naming an earlier, complete object o -- or, with
                                                 o = OPending k, the k-th enclosing tuple, which is still open: the receiver's
                                                 table holds a Deferred for it and checkObject is applied to that Deferred *)
@@ -310,6 +314,14 @@ Fixpoint recvw (oc : option ctr) (w : wobj) {struct w} : rv :=
   | WInt tb size v => slot_token oc tb size (OInt v)
   | WFloat bits => slot_token oc tok_FLOAT 0 (OFloat bits)
   | WStr vocab size bs => slot_token oc (if vocab then tok_VOCAB else tok_STRING) size (OBytes bs)
+  | WRefOpen k partial =>
+      match slot_open oc with
+      | TViol => RViol | TBanana => RAbort
+      | TOk => match oc with
+               | None => RDeliver (OPending k)
+               | Some c => if negb reference_rechecks_object || checkObject c partial then RDeliver (OPending k) else RViol
+               end
+      end
   | WRef o =>
       match slot_open oc with
       | TViol => RViol | TBanana => RAbort
@@ -564,6 +576,8 @@ Fixpoint wwf (w : wobj) : bool :=
   match w with
   | WInt tb _ _ => (tb =? tok_INT) || (tb =? tok_NEG) || (tb =? tok_LONGINT) || (tb =? tok_LONGNEG)
   | WOpen _ kids => forallb wwf kids
+  | WRefOpen _ _ => false       (* a reference to a still-open mutable container is checked against its PARTIAL state only:
+                                   outside the result-side partial theorem, see C02_result_refuted_open_reference *)
   | _ => true
   end.
 
